@@ -68,7 +68,8 @@ def run_scenario(item) -> dict:
     rng = random.Random(seed * 13 + idx)
     dtype = torch.float32 if idx % 5 == 0 else torch.float64
     prog = _STATE["prog"]
-    B = Built(prog, dtype=dtype, rng=rng, scalars=LOSS_NODES)
+    B = Built(prog, dtype=dtype, rng=rng, scalars=LOSS_NODES,
+              nonscalars=[l for l in scn.get("losses", []) if l not in LOSS_NODES] if scn["fault"] == "nonscalar_loss" else ())
     leaves = [l for l in B.leaves() if prog[l - 1]["rg"]]
     for l, flat in fmap(scn["pregrad"]).items():
         if flat:
@@ -242,7 +243,7 @@ def run(ctx: Ctx, replay: str | None) -> None:
     ctx.rule = ("one case = (valid base call, fault kind, position of the fault, pre-existing grads) enumerated by TLC on the "
                 "fixed program, or a random program with a randomly injected fault; non-trivial = a faulty call for which at "
                 "least one OTHER argument is a valid parameter whose .grad could have been written")
-    ctx.assumptions += ["'refuses a call' = the call raises any exception; a fault that the library does not reject is reported as DRIFT, not as a violation",
+    ctx.assumptions += ["'refuses a call' = the call raises any exception; the fault kinds are those the statement enumerates, so a call that carries one and is carried out all the same is reported as a violation too (Rejection!FaultyIsRejected)",
                         "duplicate losses and heads sharing graph nodes are outside the statement (DESIGN.md §9)"]
     res = run_tlc("Rejection", "MC_Rejection.cfg", workers="auto", coverage=True, seed=ctx.seed, timeout=1800)
     ctx.add_tlc(res)
@@ -261,6 +262,8 @@ def run(ctx: Ctx, replay: str | None) -> None:
             r = run_scenario((p["scenario"], p["seed"], p["idx"]))
             if r["raised"] and r["changed"]:
                 ctx.violation(rec["key"], "; ".join(r["changed"]), p)
+            if rec["key"].startswith("not_rejected:") and not r["raised"]:
+                ctx.violation(rec["key"], "the faulty call was not refused", p)
         return
     items = [(s, ctx.seed, i) for i, s in enumerate(scns)]
     results = pmap(run_scenario, items)
@@ -276,8 +279,12 @@ def run(ctx: Ctx, replay: str | None) -> None:
             ctx.violation(key, f"{s['fn']} rejected the call ({r['raised']}) for fault '{s['fault']}' in {desc} AFTER modifying: "
                                + "; ".join(r["changed"][:3]), {"scenario": s, "seed": ctx.seed, "idx": i, "meta": r["meta"]})
         if s["fault"] != "none" and not r["raised"]:
-            ctx.report_drift("Rejection", f"fault {s['fault']} is not rejected by {s['fn']}")
+            # every fault kind of Rejection.tla is one the statement enumerates as a reason for refusal
+            # (Rejection!FaultyIsRejected): a call that carries it and is carried out is not refused
             ctx.count("faulty_call_not_rejected")
+            ctx.violation("not_rejected:" + key, f"{s['fn']} did not refuse a call with fault '{s['fault']}' ({desc}): it returned"
+                          + (" after modifying: " + "; ".join(r["changed"][:3]) if r["changed"] else " (no .grad changed)"),
+                          {"scenario": s, "seed": ctx.seed, "idx": i, "meta": r["meta"]})
         if s["fault"] == "none" and r["raised"]:
             ctx.report_drift("Rejection", f"fault-free {s['fn']} call raised {r['raised']}")
     for s in scns[:: max(1, len(scns) // 4)][:4]:
